@@ -49,3 +49,18 @@ Theorem C05_resave : forall env mime se me co st, let d := i_load_doc mime se me
              (xml_parse (snd (i_metaxml env d))) (xml_parse (i_contentxml env d)) (xml_parse (i_stylesxml env d)) = finish (expected d).
 Proof. intros env mime se me co st d. exact (save_load_roundtrip env d). Qed.
 Print Assumptions C05_resave.
+
+(* without any condition on the source: what load() returns always has the eight sections in the general form
+   (C05_loaded_shape), so the general round trip (C04_roundtrip_any_sections) applies to it - also for a pretty-printed
+   source, whose white space between the children of a section is kept by load() *)
+Theorem C05_loaded_shape : forall mime se me co st, sections_named (i_load_doc mime se me co st).
+Proof. exact loaded_named. Qed.
+Print Assumptions C05_loaded_shape.
+Theorem C05_resave_any : forall env mime se me co st, let d := i_load_doc mime se me co st in
+  NoDup (all_regs d) ->
+  doc_ok F env (settings_tree d) = true -> doc_ok F env (meta_tree tv d) = true ->
+  doc_ok F env (content_tree RA d) = true -> doc_ok F env (styles_tree RA d) = true ->
+  i_load_doc (d_mime d) (if has_kids (d_settings d) then xml_parse (i_settingsxml env d) else None)
+             (xml_parse (snd (i_metaxml env d))) (xml_parse (i_contentxml env d)) (xml_parse (i_stylesxml env d)) = finish (expected_gen d).
+Proof. exact resave_gen. Qed.
+Print Assumptions C05_resave_any.
